@@ -189,6 +189,40 @@ Section RUN.
       rewrite app_assoc, Hrows, <- app_assoc. reflexivity.
   Qed.
 
+  (* responses are values: what was sent while the first calls were handled is a prefix of the final response
+     sequence, whatever comes later *)
+  Notation steps := (steps fp enc_len CS cache_add threshold ctx_ttl).
+  Lemma run_steps : forall ks st,
+    run st ks = match steps st ks with (o, Some st') => Done (o ++ [fst st']) | (o, None) => Panicked o end.
+  Proof.
+    induction ks as [|k r IH]; intros st; cbn [Decode.run Decode.steps].
+    - reflexivity.
+    - destruct (on_entries st k) as [[st' out]|]; [|reflexivity].
+      rewrite IH. destruct (steps st' r) as [o [st''|]]; now rewrite <- ?app_assoc.
+  Qed.
+  Lemma steps_app : forall ks1 ks2 st,
+    steps st (ks1 ++ ks2) =
+    match steps st ks1 with
+    | (o1, Some st1) => let '(o2, s2) := steps st1 ks2 in (o1 ++ o2, s2)
+    | (o1, None) => (o1, None)
+    end.
+  Proof.
+    induction ks1 as [|k r IH]; intros ks2 st; cbn [app Decode.steps].
+    - destruct (steps st ks2); reflexivity.
+    - destruct (on_entries st k) as [[st' out]|]; [|reflexivity].
+      rewrite IH. destruct (steps st' r) as [o1 [st1|]]; [|reflexivity].
+      destruct (steps st1 ks2) as [o2 s2]. now rewrite app_assoc.
+  Qed.
+  Lemma sent_prefix_stable ks1 ks2 st :
+    exists rest, result_chunks (run st (ks1 ++ ks2)) = (fst (steps st ks1) ++ rest)%list.
+  Proof.
+    rewrite run_steps, steps_app. destruct (steps st ks1) as [o1 [st1|]]; cbn [fst].
+    - destruct (steps st1 ks2) as [o2 [st2|]]; cbn [result_chunks].
+      + exists (o2 ++ [fst st2])%list. now rewrite app_assoc.
+      + now exists o2.
+    - exists []. cbn. now rewrite app_nil_r.
+  Qed.
+
   Lemma flat_map_call_rows ks : flat_map call_rows ks = rows_spec fp ctx_ttl (flat_map call_entries ks).
   Proof.
     unfold rows_spec, call_rows. induction ks as [|k ks IH]; cbn; [reflexivity|].
